@@ -313,6 +313,12 @@ def classify_sink(body, node):
     p = par.get(id(cur))
     while isinstance(p, list):
         p = par.get(id(p))
+    if H.kind(p) in ("MethodCall", "Call") and any(a is cur for a in p.get("args", [])):
+        # the iterator is handed to a consumer: target.extend(iter) / X::from_iter(iter)
+        cname = p.get("name") or H.last(p.get("def") or "")
+        rt = p.get("recv_ty", "") if H.kind(p) == "MethodCall" else p.get("ty", "")
+        if cname in ITER_CONSUMERS:
+            return ("%s() on %s" % (cname, rt[:60]), is_hash_ty(rt))
     if H.kind(p) == "For" and p.get("iter") is cur:
         return classify_sink(body, p)
     return ("unrecognised consumer (%s)" % (names or H.kind(p)), False)
